@@ -67,6 +67,21 @@ Theorem evl_read_called_when_pending :
 Proof. exact read_all. Qed.
 Print Assumptions evl_read_called_when_pending.
 
+(* poll: how long the delay above can last.  With n at least the number of live slots from j upwards
+   (the kernel's return value counts every slot with non-zero revents), a pass either reads the
+   ready context in slot j or closes a context - the one in a higher slot that reported POLLIN and
+   POLLHUP|POLLERR together and was counted twice; it is flagged, closed and its slot removed.  The
+   signal slot 0 is not reached in such a pass, so nothing is appended: a ready slot at index j is
+   read after at most nfd - j passes. *)
+Theorem evl_poll_delay_step : forall rep n s j x r0, Inv s -> bk s = BPoll ->
+  nth_error (parr s) j = Some (x, r0) -> 1 <= j -> has_in (lookup x rep) = true ->
+  let s1 := set_parr (map (fun p => (fst p, lookup (fst p) rep)) (parr s)) s in
+  lc s1 j (length (parr s1)) <= n ->
+  (exists t m, tr (dispatch_poll rep n s) = t ++ tr s /\ In (ERead x m) t) \/
+  (exists t y, tr (dispatch_poll rep n s) = t ++ tr s /\ In (EClose y) t).
+Proof. exact poll_delay_bound_step. Qed.
+Print Assumptions evl_poll_delay_step.
+
 (* poll: the step at slot i leaves every lower slot (context and revents) as it was, so a slot the
    walk does not reach in this pass (n used up by a POLLIN+POLLHUP fd counted twice) is still
    registered with its descriptor and data: the next poll() reports it again *)
@@ -114,37 +129,52 @@ Print Assumptions evl_add_reject_remove_isolated.
 (* FULL STATEMENT evl_backends_agree: forall sc, in_S sc = true -> the three loops (on the model's
    kernel function, [runks]) have exited -> every context has the same outcome (bytes offered,
    closed, cleared) in the three back-ends.
-   PROVED for the sub-class SW of S ([sw]): every read-callback trigger WRITES to some context's
-   peer (threshold >= 1, no two identical trigger lines) - so callbacks do issue actions, chains and
-   cycles of triggers, several writers into one context and contexts writing to themselves included -;
-   every other action (half-close, close of the peer, add, wake-up, write) is issued before run() or
-   from an idle phase, i.e. from the wake callback at quiescence, in any number of phases; no
-   scripted exit / shutdown; the adds fit hints_max_fd.  (The flat class, no triggers at all, is the
-   special case: flat_sw, flat_outcome, agree_flat in C13/ProofsFlat.v.)
+   PROVED for the sub-class SWT of S ([swt]): every read-callback trigger WRITES to, HALF-CLOSES or
+   CLOSES some context's peer, or WAKES the loop (threshold >= 1, no two identical trigger lines);
+   a peer that some trigger terminates gets all its callback-issued writes and terminators from one
+   context (the single-source condition of S, [tsb]) and then the trigger list is in threshold order
+   (as the drivers order it, [sorted_tb]); chains and cycles of triggers, several writers into one
+   context, self-writes, a context closing its own peer, writes issued after the terminator (dropped
+   by every back-end) are all included; every other action (add, and again write / half-close /
+   close / wake-up) is issued before run() or from an idle phase, i.e. from the wake callback at
+   quiescence, in any number of phases; no scripted exit / shutdown; the adds fit hints_max_fd.
+   SW (triggers only write, in any order: evl_backends_agree_sw) and the flat class (no triggers)
+   are special cases.
    Method: the back-end-free specification [spec_sw] executes the phases in order and, between two
    phases, fires the LEAST FIXPOINT of "registered and threshold reached by the bytes written so
-   far" (Kleene iteration [LP], C13/ProofsFix.v) - a set, independent of any visit order.  Each
-   back-end's loop is simulated against it: whatever the order of visits, the triggers it has fired
-   are justified one by the other, hence below the fixpoint (Just_sound), and at quiescence the fired
-   set is closed, hence above it (quiet_closed, closed_is_lfp).  Each loop therefore ends with the
-   outcome [spec_outcome_sw]: every registered context was offered every byte written to it and is
-   closed iff its peer terminated, cleared otherwise (evl_sw_outcome); hence agreement, each loop
+   far" (Kleene iteration [LP], C13/ProofsFix.v).  A terminator is one more monotone fact: what
+   reaches a terminated peer is a PREFIX of its single source's action sequence, so totals only grow
+   with the fired set (tot_mono).  Each back-end's loop is simulated against it: whatever the visit
+   order, the batches of triggers it fires are enabled by the earlier ones, hence below the fixpoint
+   (Just_sound), fired in list order per context (ordU), and at quiescence the fired set is closed,
+   hence above it (quiet_closed, closed_is_lfp).  A context whose peer is terminated while input is
+   pending is offered that input first in every back-end (EOF is only seen by reading behind the
+   data), so there is no divergence there and nothing is added to the known finding.  Each loop ends
+   with [spec_outcome_sw]: every registered context was offered every byte written to it and is
+   closed iff its peer terminated, cleared otherwise (evl_swt_outcome); hence agreement, each loop
    with its own number of kernel calls.
-   NOT PROVED: scripts of S whose triggers terminate a peer (half-close / close, single-source
-   condition term_ok), add a context, shut the acting context down at its threshold, or wake the
-   loop; for those the proved part is evl_backends_agree_visit below and the monitor checks
-   agreement on every generated S script. *)
-Theorem evl_sw_outcome : forall sc, sw sc = true -> forall b fuel s',
+   NOT PROVED (monitor-only): scripts of S with a trigger that shuts the ACTING context down at its
+   threshold, or a trigger that ADDS a context; for those the proved part is evl_backends_agree_visit
+   below and the monitor checks agreement on every generated S script. *)
+Theorem evl_swt_outcome : forall sc, swt sc = true -> forall b fuel s',
   runks b sc fuel = (s', true) -> forall x, outcome s' x = spec_outcome_sw sc x.
-Proof. exact sw_outcome. Qed.
-Print Assumptions evl_sw_outcome.
+Proof. exact swt_outcome. Qed.
+Print Assumptions evl_swt_outcome.
 
-Theorem evl_backends_agree_partial : forall sc, sw sc = true -> forall f1 f2 f3,
+Theorem evl_backends_agree_partial : forall sc, swt sc = true -> forall f1 f2 f3,
+  snd (runks BSelect sc f1) = true -> snd (runks BPoll sc f2) = true -> snd (runks BEpoll sc f3) = true ->
+  forall x, outcome (fst (runks BSelect sc f1)) x = outcome (fst (runks BPoll sc f2)) x /\
+            outcome (fst (runks BSelect sc f1)) x = outcome (fst (runks BEpoll sc f3)) x.
+Proof. exact agree_swt. Qed.
+Print Assumptions evl_backends_agree_partial.
+
+(* corollary: the class SW of the previous round (triggers that only write, in any order) *)
+Theorem evl_backends_agree_sw : forall sc, sw sc = true -> forall f1 f2 f3,
   snd (runks BSelect sc f1) = true -> snd (runks BPoll sc f2) = true -> snd (runks BEpoll sc f3) = true ->
   forall x, outcome (fst (runks BSelect sc f1)) x = outcome (fst (runks BPoll sc f2)) x /\
             outcome (fst (runks BSelect sc f1)) x = outcome (fst (runks BEpoll sc f3)) x.
 Proof. exact agree_sw. Qed.
-Print Assumptions evl_backends_agree_partial.
+Print Assumptions evl_backends_agree_sw.
 
 Theorem evl_backends_agree_visit : forall x s s', shared s = shared s' -> read_room x s -> read_room x s' ->
   shared (cb_read x s) = shared (cb_read x s') /\
